@@ -1,6 +1,7 @@
 package main
 
 import (
+	"os"
 	"fmt"
 	"strings"
 
@@ -258,6 +259,10 @@ func genTypesProject(r *rng.R) (pProject, []string) {
 		if r.Chance(1, 25) && i > 0 && g.types[i-1].Kind == "struct" && g.types[i-1].rank != rank {
 			name = g.types[i-1].Name // the same name in two packages
 			tags = append(tags, "same-name-two-packages")
+		}
+		if os.Getenv("VH_RFC_NAME") != "" && r.Chance(1, 20) && i > 0 {
+			name = "Rfc7807Error" // a user declaration named like the built-in error model (C11: both documents must agree on who wins)
+			tags = append(tags, "user-rfc7807")
 		}
 		tiny := rank == 0 && r.Chance(1, 3)
 		var t tgType
